@@ -15,7 +15,11 @@ TB = [
 ]
 AS = ["PARTIAL by nature: the frame theorem is relative to the alias table; the monitor does the detecting",
       "read-only calls are executed twice in the adapter; float results compared bit-exactly (same process, same inputs)"]
-RULE = ("round 4: the dump of every view also holds what it ANSWERS - len(view), `ss in view.manifest` for every signature of the world, a "
+RULE = ("round 6: constructors that take EXISTING views as input (MultiIndex.load over views of any ordered kind with labels / None and "
+        "prepend_location, LinearIndex / SBT / LCA_Database built from view.signatures(), StandaloneManifestIndex over an exported manifest, "
+        "MultiIndex.load_from_path / _directory / _pathlist over a saved view, CounterGather from a view driven by peek/consume, SBT.combine, index "
+        "objects wrapped around a live manifest, get_manifest); the dump holds the LOCATIONS every view reports (Index.location, "
+        "signatures_with_location, search result locations, the internal_location column), temp dirs and md5 member names canonicalised; round 4: the dump of every view also holds what it ANSWERS - len(view), `ss in view.manifest` for every signature of the world, a "
         "containment search with a probe query (lowest-handle flat scaled signature) - so hidden indices/caches show; manifest-level read-only ops "
         "(`vmf add|eq|in|select|filter|misc` on the manifests of two views: a+b, b+a, a+a, ==, in, select_to_manifest, _select, filter_rows, "
         "filter_on_columns, to_picklist, locations, len, iteration, write_to_csv twice); ad-hoc zips whose member files hold 2-4 signatures (`vzipg`); "
